@@ -127,6 +127,23 @@ def step (st : Option Pool) (toks : List String) : Option Pool × String :=
             let r := V1.checkTx s tx v
             (some (.v1 r.1), showV1Res r.2 ++ obs (.v1 r.1))
         | _, _, _ => (st, "bad-op")
+      | "ccheck" =>
+        -- K concurrent submissions of fresh, equally long txs with one verdict: every
+        -- linearisation admits the same number; the model runs them in the listed order
+        match (kv rest "txs").map splitComma, parseVerdict rest with
+        | some tl, some v =>
+          if tl.length = 0 ∨ tl.length > 64 then (st, "bad-op") else
+          match tl.mapM parseTx with
+          | none => (st, "bad-op")
+          | some txs =>
+            match p with
+            | .v0 s =>
+              let s' := txs.foldl (fun a tx => (V0.checkTx a tx v).1) s
+              (some (.v0 s'), s!"admitted={(s'.txs.length : Int) - s.txs.length} | n={s'.txs.length} b={s'.txsBytes} dup=0 reap={(V0.reapMaxTxs s' (-1)).length}")
+            | .v1 s =>
+              let s' := txs.foldl (fun a tx => (V1.checkTx a tx v).1) s
+              (some (.v1 s'), s!"admitted={(s'.txs.length : Int) - s.txs.length} | n={s'.txs.length} b={s'.txsBytes} dup=0 reap={(V1.reapMaxTxs s' (-1)).length}")
+        | _, _ => (st, "bad-op")
       | "update" =>
         match getInt rest "h", parseBlock rest, (kv rest "rv").bind parseRV,
               (kv rest "pre").bind parseFilter, (kv rest "post").bind parseFilter with
